@@ -92,6 +92,17 @@ def violation_once(ctx, obj, found_input=True):
     return ctx.violation(obj, found_input=found_input)
 
 
+def eval_batched(ctx, name, imports, ty, terms, shard, maxpar=12):
+    """coq_eval_mismatches starts one coqc per shard at once; keep at most maxpar of them alive (memory)"""
+    bad, errs = [], ""
+    step = shard * maxpar
+    for off in range(0, len(terms), step):
+        b, e = coq_eval_mismatches(ctx, name, imports, ty, "chk", terms[off:off + step], shard=shard)
+        bad += [(i + off if i >= 0 else i) for i in b]
+        errs += e
+    return bad, errs
+
+
 class Pending(Exception):
     pass
 
@@ -348,6 +359,16 @@ def oracle(name, code, A, B, recs, out):
         if code in (5, 6):
             if not is_perm(o, r) or restrict(o, S) != restrict(r, S):
                 return ("reorder", "reorder is not a permutation keeping the unnamed fields' relative order")
+            d = dict(r)
+            if code == 5:     # documented: reorder -f a,b puts a then b first
+                named = [(f, d[f]) for f in dict.fromkeys(A) if f in d]
+                if o != named + restrict(r, S):
+                    return ("reorder-order", "reorder -f does not put the named fields first in argument order")
+            else:             # documented: reorder -e -f a,b puts a then b last
+                last = list(dict.fromkeys(reversed(A)))[::-1]
+                named = [(f, d[f]) for f in last if f in d]
+                if o != restrict(r, S) + named:
+                    return ("reorder-order", "reorder -e -f does not put the named fields last in argument order")
         if code == 7:
             olds, news = set(A[0::2]), set(A[1::2])
             if restrict(o, olds | news) != restrict(r, olds | news):
@@ -527,8 +548,11 @@ def inverse_oracles(ctx):
         if kind in seen:
             continue
         seen.add(kind)
+        cls = "inverse-" + kind
+        if msg == "mlr failed" and "cannot compile regex" in str(obs) and args and args[0] == "nest":
+            cls = "nest-field-name-used-as-regex"
         violation_once(ctx, {"broken": "inverse/complement law " + kind, "args": repr(args), "input": repr(recs), "observed": repr(obs),
-                       "expected": msg, "class": "inverse-" + kind})
+                             "expected": msg, "class": cls})
 
 
 def cli_tie(ctx, meta):
@@ -600,6 +624,64 @@ def sec2gmt_identity(ctx):
             return
 
 
+def saver_bystanders(ctx):
+    """case / sub / gsub / ssub -f F and unspace: fields they do not name (resp. that contain no space) keep name, value
+    and position; values-only forms keep every name; ssub/case/unspace are compared with a first-principles result"""
+    rng = ctx.rng
+    cases = []
+    for _ in range(40 if ctx.tier == "quick" else 400):
+        recs = gen_stream(rng)
+        fs = gen_fields(rng, recs)
+        kind = rng.choice(["case-v", "case-k", "sub", "gsub", "ssub", "unspace", "unspace-v"])
+        if kind == "case-v":
+            args = ["case", "-u", "-v", "-f", csv(fs)]
+        elif kind == "case-k":
+            args = ["case", "-u", "-k", "-f", csv(fs)]
+        elif kind in ("sub", "gsub", "ssub"):
+            args = [kind, "-f", csv(fs), rng.choice(["a", "x", ";", "1"]), rng.choice(["Z", "", "yy"])]
+        elif kind == "unspace":
+            args = ["unspace"]
+        else:
+            args = ["unspace", "-v"]
+        cases.append((kind, args, fs, recs))
+    outs = verbrun(ctx, [(c[1], c[3]) for c in cases], nproc=2)
+    up = lambda b: b.decode("latin1").upper().encode("latin1") if all(c < 128 for c in b) else None
+    for (kind, args, fs, recs), (st, o, err) in zip(cases, outs):
+        ctx.count(("saver", kind, repr(args), repr(recs)))
+        ctx.dist("saver:" + kind)
+        bad = None
+        if st != 0 or len(o) != len(recs):
+            bad = "verb failed or changed the record count"
+        else:
+            S = set(fs)
+            for r, q in zip(recs, o):
+                if kind in ("case-v", "sub", "gsub", "ssub"):
+                    if [k for k, _ in q] != [k for k, _ in r] or any(v != w for (k, v), (_, w) in zip(r, q) if k not in S):
+                        bad = "a field outside -f changed, or a name changed"
+                    if kind == "ssub" and not bad:
+                        old, new = args[-2].encode(), args[-1].encode()
+                        if any(w != v.replace(old, new, 1) for (k, v), (_, w) in zip(r, q) if k in S):
+                            bad = "ssub is not the replacement of the first occurrence"
+                    if kind == "case-v" and not bad:
+                        if any(up(v) is not None and w != up(v) for (k, v), (_, w) in zip(r, q) if k in S):
+                            bad = "case -u -v is not the uppercased value"
+                elif kind == "case-k":
+                    if [v for _, v in q] != [v for _, v in r] and len(q) == len(r):
+                        bad = "case -k changed a value"
+                    if len(q) == len(r) and any(k != k2 for (k, _), (k2, _) in zip(r, q) if k not in S):
+                        bad = "case -k -f renamed a field outside -f"
+                else:
+                    want = [((k.replace(b" ", b"_") if kind == "unspace" else k), v.replace(b" ", b"_")) for k, v in r]
+                    wk = [k for k, _ in want]
+                    if len(set(wk)) == len(wk) and q != want:
+                        bad = "unspace is not the replacement of spaces by _"
+                if bad:
+                    break
+        if bad:
+            violation_once(ctx, {"broken": "keystroke-saver verb: " + bad, "args": args, "input": repr(recs),
+                                 "observed": repr(o) if st == 0 else err.decode("latin1")[-300:], "expected": bad, "class": "saver-" + kind})
+
+
 def run(ctx):
     ctx.cov["rule"] = ("streams of 1-6 records (heterogeneous, re-ordered copies, 1-12 fields) over a name pool with plain, duplicate-looking (x_1, x_10, a/A/ab), "
                        "regex-metacharacter and non-UTF-8 names and a value pool with empties, separators, numerals; field lists present/absent/overlapping/repeated; "
@@ -612,7 +694,7 @@ def run(ctx):
     forbidden_gate(ctx, ["Base", "C12"])
     ok, why = check_props(ctx, "C12/Props.v", ["C12/Harness.vo", "C12/Proofs.vo"])
     verbs = mk_cases(ctx)
-    per = 100 if ctx.tier == "quick" else 1500
+    per = 100 if ctx.tier == "quick" else 600
     jobs = []
     for name, code, g in verbs:
         for _ in range(per):
@@ -646,6 +728,7 @@ def run(ctx):
                 continue
             seen.add(cls)
             violation_once(ctx, {"broken": "property oracle: " + msg, "verb": j[0], "args": j[2], "input": repr(j[5]), "input_dkvp_hex": enc(j[5]).hex(),
+                           "code": j[1], "A": repr(j[3]), "B": repr(j[4]),
                            "observed": repr(out), "expected": msg, "class": cls})
             if len(seen) >= limit:
                 break
@@ -656,7 +739,7 @@ def run(ctx):
             ctx.violation({"broken": why}, found_input=False)
         return
     with ctx.timed("coq_cases"):
-        bad, err = coq_eval_mismatches(ctx, "C12", "Base.Record C12.Model C12.Harness", "Z * list bytes * list bytes * list record * list record", "chk", terms, shard=200)
+        bad, err = eval_batched(ctx, "C12", "Base.Record C12.Model C12.Harness", "Z * list bytes * list bytes * list record * list record", terms, shard=200)
     ctx.cov["correspondence"] = {"cases": len(terms), "mismatches": len(bad)}
     if err:
         ctx.violation({"broken": "correspondence-evaluation", "detail": err[-2000:]}, found_input=False)
@@ -678,16 +761,28 @@ def run(ctx):
     with ctx.timed("oracles"):
         inverse_oracles(ctx)
         sec2gmt_identity(ctx)
+        saver_bystanders(ctx)
         defect_probes(ctx)
 
 
 def replay(ctx, path):
-    obj = json.loads(Path(path).read_text())
     import ast
+    obj = json.loads(Path(path).read_text())
     recs = ast.literal_eval(obj["input"])
     args = obj["args"] if isinstance(obj["args"], list) else ast.literal_eval(obj["args"])
     st, out, err = run_mlr(ctx, args, recs)
     print("replay: args=%r input=%r observed=%r status=%r" % (args, recs, out, st))
     ctx.count(("replay", repr(args), repr(recs)))
-    if "expected" in obj and obj.get("class") and repr(out) == obj.get("observed"):
-        ctx.violation(dict(obj, replayed=True))
+    still = False
+    if st != 0:
+        still = True                       # the verb refuses / crashes on this input
+    elif "code" in obj:
+        still = oracle(obj.get("verb", ""), obj["code"], ast.literal_eval(obj["A"]), ast.literal_eval(obj["B"]), recs, out) is not None
+    elif "then" in args:                   # inverse-pair laws: the composition must be the identity
+        still = out != recs and not str(obj.get("broken", "")).endswith("reshape-w2l-l2w")
+    elif str(obj.get("expected", "")).startswith("[["):
+        still = repr(out) != obj["expected"]
+    else:
+        still = any(not uniq(r) for r in out)
+    if still:
+        ctx.violation(dict(obj, replayed=True, observed=repr(out) if st == 0 else err.decode("latin1")[-300:]))
